@@ -25,7 +25,7 @@ for pid in sorted(PROPS):
     })
 m = {
     "version": 1,
-    "setup_cmd": "cd /verif/harness && CARGO_NET_OFFLINE=true cargo build --offline --profile mon",
+    "setup_cmd": "cd /verif/harness && CARGO_NET_OFFLINE=true cargo build --offline --profile mon && CARGO_NET_OFFLINE=true cargo build --offline --profile monrel && cd /repo && CARGO_NET_OFFLINE=true cargo build --offline --features cli --bins --target-dir /verif/target/repo",
     "hooks": {
         "guard": "cargo feature `verif` of the rsdd crate (off by default)",
         "enable": "the harness crate depends on rsdd = { path = \"/repo\", features = [\"verif\", \"ffi\"] }; every check runs `cargo build` of /verif/harness, which rebuilds rsdd from /repo's working tree with the feature on",
